@@ -33,12 +33,42 @@ def as_str(v):
     return str(v)
 
 
+import re as _re
+_IDENT = _re.compile(r"^[A-Za-z_$%@][A-Za-z0-9_$%@]*$")
+_NOT_VAR = {"True", "False", "None", "true", "false", "null", "nil", "undefined", "this", "self", "%this"}
+VAR_FLAGS = ("target", "name", "operand", "operand2", "condition", "receiver", "source", "index", "array", "receiver_object", "field")
+
+
+def is_var(text):
+    """Lexical test: is this operand text a variable token (not a literal)?"""
+    return bool(text) and bool(_IDENT.match(text)) and text not in _NOT_VAR
+
+
+def arg_list(v):
+    """positional_args / args are stored as the text of a Python list."""
+    if v is None or v == "":
+        return []
+    if isinstance(v, list):
+        return [as_str(x) for x in v]
+    try:
+        import ast
+        x = ast.literal_eval(str(v))
+        return [as_str(y) for y in x] if isinstance(x, (list, tuple)) else []
+    except (ValueError, SyntaxError):
+        return []
+
+
 def norm_row(r, extra_str=()):
     out = {"id": as_int(r.get("stmt_id")), "parent": as_int(r.get("parent_stmt_id")), "op": as_str(r.get("operation"))}
     for f in INT_FIELDS:
         out[f] = as_int(r.get(f))
     for f in STR_FIELDS + tuple(extra_str):
         out[f] = as_str(r.get(f))
+    for f in VAR_FLAGS:
+        out[f + "_v"] = is_var(out[f])
+    args = arg_list(r.get("positional_args")) + arg_list(r.get("args"))
+    out["args"] = args
+    out["arg_names"] = [a for a in args if is_var(a)]
     return out
 
 
